@@ -35,6 +35,16 @@ def valid(case):
     return all(not N.schema_errors(case[k]) for k in keys)
 
 
+def precheck(case):
+    if case["kind"] == "json":
+        return None
+    for k in (("a", "b") if case["kind"] == "nb" else ("base", "local", "remote")):
+        e = N.schema_errors(case[k])
+        if e:
+            return "%s is not schema-valid: %s" % (k, e[0])
+    return None
+
+
 def budget(tier):
     return 3000 if tier == "quick" else 60000
 
